@@ -210,3 +210,55 @@ def s6_csv_writer():
     ut.csv = types.SimpleNamespace(writer=_PyCsvWriter, QUOTE_ALL=1)
     ut.StringIO = _PyStringIO
     _mark("S6")
+
+
+class _PyMemo:
+    """S12: pure-Python model of functools.lru_cache (association list compared with ==, oldest
+    entry evicted at maxsize).  CrossHair calls lru_cache-wrapped functions without their cache
+    (a memoised result that is mutated by the caller shows as 'Confirmed' although the concrete
+    run differs), so cache state left behind by earlier conversions is only visible to the
+    search through this model.  The cached object itself is returned, as the C cache does."""
+
+    def __init__(self, fn, maxsize):
+        self.__wrapped__ = fn
+        self.maxsize = maxsize
+        self.entries = []
+        self.__name__ = getattr(fn, "__name__", "memo")
+        self.__doc__ = getattr(fn, "__doc__", None)
+
+    def __call__(self, *args, **kw):
+        key = (args, tuple(sorted(kw.items())))
+        for k, v in self.entries:
+            if k == key:
+                return v
+        v = self.__wrapped__(*args, **kw)
+        self.entries.append((key, v))
+        if self.maxsize is not None and len(self.entries) > self.maxsize:
+            self.entries.pop(0)
+        return v
+
+    def cache_clear(self):
+        self.entries = []
+
+    def cache_info(self):
+        return (0, 0, self.maxsize, len(self.entries))
+
+
+def s12_python_lru():
+    if not SYMBOLIC:
+        return
+    import sys
+
+    mods = [m for n, m in list(sys.modules.items()) if n == "pyxform" or n.startswith("pyxform.")]
+    repl = {}
+    for m in mods:
+        for name, v in list(vars(m).items()):
+            if callable(v) and hasattr(v, "cache_info") and hasattr(v, "__wrapped__") and not isinstance(v, _PyMemo):
+                if id(v) not in repl:
+                    try:
+                        ms = v.cache_parameters()["maxsize"]
+                    except Exception:  # noqa: BLE001
+                        ms = 128
+                    repl[id(v)] = _PyMemo(v.__wrapped__, ms)
+                setattr(m, name, repl[id(v)])
+    _mark("S12")
